@@ -36,7 +36,7 @@ CLAIMED = {
    note='file-object / csv buffering is not look-ahead; S is read live from iterable_storage.SAMPLE_SIZE',
    ref='6/C06'),
  'C07': dict(
-   technique='Lean 4 proof (extended-JSON codec round trip over nested typed values incl. any UTC offset; stream/unstream framing; run/delete history and checkpoint-chain state machines) + ejson/plan correspondence + history oracle on real code + code-skeleton obligation (checkpoint decides by existence of the final name only) + unstream correspondence + translator ties (Tie_preprocess_chain / Tie_checkpoint_handle / Tie_checkpoint_preprocess + plan_of_fold: Flow._preprocess_chain and the two checkpoint methods, re-translated on every run, compute Ckpt.planChain; Tie_ejson_default: the encoder dispatches every kind of value to the tag Ejson.enc uses, a datetime before a date; Tie_hook_*: the decoder's object_hook on single-tag and untagged objects = the clauses of Ejson.hook) + pyeval correspondence of all of them',
+   technique='Lean 4 proof (extended-JSON codec round trip over nested typed values incl. any UTC offset; stream/unstream framing; run/delete history and checkpoint-chain state machines) + ejson/plan correspondence + history oracle on real code + code-skeleton obligation (checkpoint decides by existence of the final name only) + unstream correspondence + translator ties (Tie_preprocess_chain / Tie_checkpoint_handle / Tie_checkpoint_preprocess + plan_of_fold: Flow._preprocess_chain and the two checkpoint methods, re-translated on every run, compute Ckpt.planChain; Tie_ejson_default: the encoder dispatches every kind of value to the tag Ejson.enc uses, a datetime before a date; Tie_hook_*: the object_hook of the decoder on single-tag and untagged objects = the clauses of Ejson.hook) + pyeval correspondence of all of them',
    text='C07_ejson_roundtrip is proved by structural induction over all nested values of the claimed domain with the fixed-width date/time formats and the offset arithmetic modelled concretely; C07_stream_unstream for any number of (possibly empty) resources; C07_history / C07_chain_last_wins by induction over histories / chains. Tied to the code by comparing the real tag tree and decoded value of generated typed values with the model, and the executed steps of real run/delete histories over chains of checkpoints with the model plan.',
    note='json text layer, Decimal str/constructor and isodate are assumed to round-trip (leaf parameters); sub-second parts are outside the proved domain (listed finding); user objects carrying tag keys are outside the domain',
    ref='6/C07'),
